@@ -36,6 +36,7 @@ type Ctx struct {
 	GOARCH string
 	Tags   string
 	Tier   string
+	CGKind string
 	Dump   string
 
 	fieldOwner map[*types.Var]string
